@@ -171,8 +171,19 @@ impl CheckReader {
         Self { source, region }
     }
 
+    /// Cut a sub region, relative to the checked region.
+    /// `offset` and `size` may come from the file: an error if they are not inside the region.
+    fn cut_rel(&self, offset: Offset, size: ASize) -> Result<ARegion> {
+        match offset.into_u64().checked_add(size.into_u64()) {
+            Some(end) if end <= self.region.size().into_u64() => {
+                Ok(self.region.cut_rel_asize(offset, size))
+            }
+            _ => Err(format_error!("Read outside of a checked block")),
+        }
+    }
+
     pub(crate) fn create_parser(&self, offset: Offset, size: ASize) -> Result<impl Parser + '_> {
-        let region = self.region.cut_rel_asize(offset, size);
+        let region = self.cut_rel(offset, size)?;
         let slice = self.source.get_slice(region, BlockCheck::None)?;
         Ok(SliceParser::new(slice, self.region.begin() + offset))
     }
@@ -187,7 +198,7 @@ impl CheckReader {
         T::parse(&mut parser)
     }
     pub fn get_slice(&self, offset: Offset, size: ASize) -> Result<Cow<[u8]>> {
-        let region = self.region.cut_rel_asize(offset, size);
+        let region = self.cut_rel(offset, size)?;
         self.source.get_slice(region, BlockCheck::None)
     }
 }
